@@ -3,10 +3,12 @@
 (* MultivariateNormal (property C10): the shape algebra of log_prob and    *)
 (* the arithmetic / reshaping operations as maps on (mean, covariance).    *)
 (*                                                                         *)
-(* A stored distribution is [lazy, loc, cov, trilb]:                       *)
+(* A stored distribution is [lazy, loc, cov, tril, trilb]:                 *)
 (*   loc  : tensor of rationals, shape mb \o <<n>>                          *)
 (*   cov  : tensor of rationals, shape cb \o <<n, n>>                       *)
-(*   trilb: batch shape of torch's _unbroadcasted_scale_tril (dense only)  *)
+(*   tril : a Cholesky factor is cached (dense: always; lazy: only after   *)
+(*          it was needed once - the HISTORY dimension `warm` of a case)   *)
+(*   trilb: batch shape of the cached _unbroadcasted_scale_tril            *)
 (* The LinearOperator branch of the constructor stores mean and covariance *)
 (* as given (mb and cb may differ: broadcast representation); torch's      *)
 (* dense constructor expands loc and covariance_matrix to the batch shape  *)
@@ -19,6 +21,19 @@
 (* code on the stored form (Code...); the invariant OpsOK: they commute,  *)
 (* LogProbShapeOK says the expand / repeat logic of log_prob yields the    *)
 (* plain broadcast of the value batch with the distribution batch.         *)
+(*                                                                         *)
+(* SCALARS.  A scalar argument is <<num, den, spelling>>: an exact         *)
+(* rational VALUE and the Python SPELLING it is passed in (int, float,     *)
+(* bool, numpy.float64, 0-dim tensor, or omitted = the default).  The      *)
+(* value alphabet holds the algebraically special values of every scalar   *)
+(* operation: the identity of the operation (1 for * and /, 0 for + and    *)
+(* jitter), its negative (-1: the square is the identity's), the           *)
+(* annihilator 0, values adjacent to 0 and to +-1, proper fractions and    *)
+(* ordinary values of both signs.  The code short-cuts on some of them     *)
+(* (`if other == 1: return self`, `if other == 0: return self` in          *)
+(* __radd__); the semantics does not know short-cuts.                      *)
+(* The code may REJECT a spelling (0-dim tensors, scalar * X); a case with *)
+(* optional = TRUE must raise or be right, every other case must be right. *)
 (***************************************************************************)
 EXTENDS MVNShapes, TLC
 
@@ -45,14 +60,17 @@ Construct(mb, cb, lazy, base) ==
   LET db == BShape(mb, cb)
       loc == Vals(mb \o <<NE>>, base)
       cov == Vals(cb \o <<NE, NE>>, 10 * base)
-  IN IF lazy /\ Variant = "pinned" THEN [lazy |-> TRUE, loc |-> loc, cov |-> cov, trilb |-> <<>>, err |-> FALSE]
-     ELSE IF lazy THEN [lazy |-> TRUE, loc |-> BcastTo(loc, db \o <<NE>>), cov |-> BcastTo(cov, db \o <<NE, NE>>), trilb |-> <<>>, err |-> FALSE]
-     ELSE [lazy |-> FALSE, loc |-> BcastTo(loc, db \o <<NE>>), cov |-> BcastTo(cov, db \o <<NE, NE>>), trilb |-> cb, err |-> FALSE]
+  IN IF lazy /\ Variant = "pinned" THEN [lazy |-> TRUE, loc |-> loc, cov |-> cov, tril |-> FALSE, trilb |-> <<>>, err |-> FALSE]
+     ELSE IF lazy THEN [lazy |-> TRUE, loc |-> BcastTo(loc, db \o <<NE>>), cov |-> BcastTo(cov, db \o <<NE, NE>>), tril |-> FALSE, trilb |-> <<>>, err |-> FALSE]
+     ELSE [lazy |-> FALSE, loc |-> BcastTo(loc, db \o <<NE>>), cov |-> BcastTo(cov, db \o <<NE, NE>>), tril |-> TRUE, trilb |-> cb, err |-> FALSE]
 
-XErr == [lazy |-> TRUE, loc |-> Err, cov |-> Err, trilb |-> <<>>, err |-> TRUE]
+XErr == [lazy |-> TRUE, loc |-> Err, cov |-> Err, tril |-> FALSE, trilb |-> <<>>, err |-> TRUE]
 LocB(x) == SubSeq(x.loc.shape, 1, Len(x.loc.shape) - 1)
 CovB(x) == SubSeq(x.cov.shape, 1, Len(x.cov.shape) - 2)
-MkLazy(loc, cov) == IF loc.err \/ cov.err THEN XErr ELSE [lazy |-> TRUE, loc |-> loc, cov |-> cov, trilb |-> <<>>, err |-> FALSE]
+MkLazy(loc, cov) == IF loc.err \/ cov.err THEN XErr ELSE [lazy |-> TRUE, loc |-> loc, cov |-> cov, tril |-> FALSE, trilb |-> <<>>, err |-> FALSE]
+\* history: the Cholesky factor was needed once (log_prob on the Cholesky path, scale_tril, entropy ...): a lazy distribution
+\* caches to_dense(lazy_covariance_matrix.cholesky()) with the batch shape of the stored covariance; a dense one always has it
+Warm(x) == IF x.err \/ ~x.lazy THEN x ELSE [x EXCEPT !.tril = TRUE, !.trilb = CovB(x)]
 
 \* ---- semantics --------------------------------------------------------------------------------------
 DErr == [batch |-> NoShape, mean |-> Err, cov |-> Err, err |-> TRUE]
@@ -61,7 +79,7 @@ Den(x) ==
   ELSE LET db == BShape(LocB(x), CovB(x))
        IN IF db = NoShape \/ Len(x.loc.shape) = 0 \/ Len(x.cov.shape) < 2 THEN DErr
           ELSE IF x.loc.shape[Len(x.loc.shape)] # NE \/ SubSeq(x.cov.shape, Len(x.cov.shape) - 1, Len(x.cov.shape)) # <<NE, NE>> THEN DErr
-          ELSE IF ~x.lazy /\ BShape(x.trilb, db) # db THEN DErr
+          ELSE IF x.tril /\ BShape(x.trilb, db) # db THEN DErr
           ELSE [batch |-> db, mean |-> BcastTo(x.loc, db \o <<NE>>), cov |-> BcastTo(x.cov, db \o <<NE, NE>>), err |-> FALSE]
 
 DEq(a, b) == (a.err <=> b.err) /\ (~a.err => a.batch = b.batch /\ TEq(a.mean, b.mean) /\ TEq(a.cov, b.cov))
@@ -73,7 +91,7 @@ MapCov(T, f(_, _)) == [shape |-> T.shape, data |-> [p \in DOMAIN T.data |-> f(T.
 SemAddScalar(D, k) == [D EXCEPT !.mean = TMap(D.mean, LAMBDA v : RAdd(v, k))]                    \* X + k
 SemMul(D, k) == [D EXCEPT !.mean = TMap(D.mean, LAMBDA v : RMul(v, k)),                          \* k X
                           !.cov = TMap(D.cov, LAMBDA v : RMul(v, RMul(k, k)))]
-SemDiv(D, k) == SemMul(D, RInv(k))                                                                \* X / k
+SemDiv(D, k) == IF k[1] = 0 THEN DErr ELSE SemMul(D, RInv(k))                                     \* X / k
 SemJitter(D, e) == [D EXCEPT !.cov = MapCov(D.cov, LAMBDA v, dg : IF dg THEN RAdd(v, e) ELSE v)]  \* X + sqrt(e) Z
 SemAddMVN(D1, D2) ==                                                                              \* X + Y, independent
   LET b == BShape(D1.batch, D2.batch)
@@ -98,14 +116,23 @@ BAdd(A, B) ==
   LET s == BShape(A.shape, B.shape)
   IN IF s = NoShape THEN Err ELSE TZip(BcastTo(A, s), BcastTo(B, s), RAdd)
 
-\* __add__ with a number: self.__class__(self.mean + other, self.lazy_covariance_matrix)
-CodeAddScalar(x, k) == MkLazy(TMap(x.loc, LAMBDA v : RAdd(v, k)), x.cov)
-\* __mul__: "if other == 1: return self"; mean * other, lazy_covariance_matrix * other ** 2
-CodeMul(x, k) == IF REq(k, RI(1)) THEN x
-                 ELSE MkLazy(TMap(x.loc, LAMBDA v : RMul(v, k)), TMap(x.cov, LAMBDA v : RMul(v, RMul(k, k))))
-\* __truediv__: self.__mul__(1.0 / other)
-CodeDiv(x, k) == CodeMul(x, RInv(k))
-\* add_jitter: self.__class__(self.mean, self.lazy_covariance_matrix.add_jitter(noise))
+\* spellings of a scalar argument
+SpInt == 0  SpFloat == 1  SpTensor0 == 2  SpBool == 3  SpNumpy == 4  SpOmitted == 5
+\* isinstance(other, int) or isinstance(other, float): bool is an int, numpy.float64 is a float, a 0-dim tensor is neither
+IsNumber(sp) == sp # SpTensor0
+\* __add__ with a number: self.__class__(self.mean + other, self.lazy_covariance_matrix); anything else: RuntimeError
+CodeAddScalar(x, k, sp) == IF ~IsNumber(sp) THEN XErr ELSE MkLazy(TMap(x.loc, LAMBDA v : RAdd(v, k)), x.cov)
+\* __radd__ (number + X, also the first step of sum([...])): "if other == 0: return self", else __add__
+CodeRAddScalar(x, k, sp) == IF k[1] = 0 THEN x ELSE CodeAddScalar(x, k, sp)
+\* __mul__: not a number: RuntimeError; "if other == 1: return self"; mean * other, lazy_covariance_matrix * other ** 2
+CodeMul(x, k, sp) == IF ~IsNumber(sp) THEN XErr
+                     ELSE IF REq(k, RI(1)) THEN x
+                     ELSE MkLazy(TMap(x.loc, LAMBDA v : RMul(v, k)), TMap(x.cov, LAMBDA v : RMul(v, RMul(k, k))))
+\* __truediv__: self.__mul__(1.0 / other)  (1.0 / tensor is a tensor; 1.0 / 0 raises)
+CodeDiv(x, k, sp) == IF k[1] = 0 THEN XErr ELSE CodeMul(x, RInv(k), sp)
+\* number * X: there is no __rmul__ (TypeError)
+CodeRMul(x, k, sp) == XErr
+\* add_jitter: self.__class__(self.mean, self.lazy_covariance_matrix.add_jitter(noise)); noise defaults to 1e-4; any spelling
 CodeJitter(x, e) == MkLazy(x.loc, MapCov(x.cov, LAMBDA v, dg : IF dg THEN RAdd(v, e) ELSE v))
 \* __add__ with an MVN: means and lazy covariances are added (tensor / LinearOperator broadcasting)
 CodeAddMVN(x, y) == MkLazy(BAdd(x.loc, y.loc), BAdd(x.cov, y.cov))
@@ -115,9 +142,11 @@ CodeExpand(x, B) ==
   IF ~CanBcast(x.loc.shape, B \o <<NE>>) THEN XErr                                   \* self.loc.expand(batch_size + loc.shape[-1:])
   ELSE IF x.lazy THEN
          IF ~CanBcast(x.cov.shape, B \o <<NE, NE>>) THEN XErr                        \* self._covar.expand(batch_size + covar.shape[-2:])
-         ELSE MkLazy(BcastTo(x.loc, B \o <<NE>>), BcastTo(x.cov, B \o <<NE, NE>>))
+         ELSE IF ~x.tril THEN MkLazy(BcastTo(x.loc, B \o <<NE>>), BcastTo(x.cov, B \o <<NE, NE>>))
+         ELSE IF ~CanBcast(x.trilb, B) THEN XErr                                     \* "Reuse the scale tril if available": tril.expand(batch_size + ...)
+         ELSE [lazy |-> TRUE, loc |-> BcastTo(x.loc, B \o <<NE>>), cov |-> BcastTo(x.cov, B \o <<NE, NE>>), tril |-> TRUE, trilb |-> B, err |-> FALSE]
   ELSE IF ~CanBcast(x.trilb, B) \/ ~CanBcast(x.cov.shape, B \o <<NE, NE>>) THEN XErr   \* scale_tril.expand / covariance_matrix.expand
-  ELSE [lazy |-> FALSE, loc |-> BcastTo(x.loc, B \o <<NE>>), cov |-> BcastTo(x.cov, B \o <<NE, NE>>), trilb |-> B, err |-> FALSE]
+  ELSE [lazy |-> FALSE, loc |-> BcastTo(x.loc, B \o <<NE>>), cov |-> BcastTo(x.cov, B \o <<NE, NE>>), tril |-> TRUE, trilb |-> B, err |-> FALSE]
 
 \* unsqueeze(dim): dim is normalised against len(self.batch_shape) and then applied to the STORED tensors
 CodeUnsqueeze(x, dim) ==
@@ -128,10 +157,13 @@ CodeUnsqueeze(x, dim) ==
      ELSE LET newloc == Reshape(x.loc, InsertOne(x.loc.shape, k))
           IN IF x.lazy THEN
                IF k > Len(CovB(x)) THEN XErr                                        \* LinearOperator.unsqueeze: "Can only unsqueeze batch dimensions"
-               ELSE MkLazy(newloc, Reshape(x.cov, InsertOne(x.cov.shape, k)))
-             ELSE IF Variant = "fixed" THEN [lazy |-> FALSE, loc |-> newloc, cov |-> Reshape(x.cov, InsertOne(x.cov.shape, k)), trilb |-> InsertOne(LocB(x), k), err |-> FALSE]
+               ELSE IF ~x.tril THEN MkLazy(newloc, Reshape(x.cov, InsertOne(x.cov.shape, k)))
+               ELSE IF k > Len(x.trilb) THEN XErr                                   \* (unreachable: the cached factor has the covariance's batch shape)
+               ELSE [lazy |-> TRUE, loc |-> newloc, cov |-> Reshape(x.cov, InsertOne(x.cov.shape, k)),   \* "Reuse the scale tril": tril.unsqueeze(dim)
+                     tril |-> TRUE, trilb |-> InsertOne(x.trilb, k), err |-> FALSE]
+             ELSE IF Variant = "fixed" THEN [lazy |-> FALSE, loc |-> newloc, cov |-> Reshape(x.cov, InsertOne(x.cov.shape, k)), tril |-> TRUE, trilb |-> InsertOne(LocB(x), k), err |-> FALSE]
              ELSE IF k > Len(x.trilb) THEN XErr                                     \* scale_tril.unsqueeze(dim) lands inside the matrix dimensions
-             ELSE [lazy |-> FALSE, loc |-> newloc, cov |-> Reshape(x.cov, InsertOne(x.cov.shape, k)), trilb |-> InsertOne(x.trilb, k), err |-> FALSE]
+             ELSE [lazy |-> FALSE, loc |-> newloc, cov |-> Reshape(x.cov, InsertOne(x.cov.shape, k)), tril |-> TRUE, trilb |-> InsertOne(x.trilb, k), err |-> FALSE]
 
 \* ---- log_prob, fast path: shapes only ----------------------------------------------------------------------
 \* returns the batch shape of the result, or NoShape when some step raises
@@ -159,24 +191,55 @@ LogProbCases ==
   {[kind |-> "logprob", vb |-> t[1], mb |-> t[2][1], cb |-> t[2][2], lazy |-> t[3], expect |-> LogProbExpected(t[1], t[2][1], t[2][2])] :
      t \in {u \in BatchShapes \X Pairs \X Lazies : InPart(u[2], u[3]) /\ LogProbExpected(u[1], u[2][1], u[2][2]) # NoShape}}
 
-Scalars == {RI(1), RI(2), RI(-3)}
+\* ---- the scalar alphabet -----------------------------------------------------------------------------------------
+\* values: identity, its negative, annihilator, 0-adjacent, (+-1)-adjacent, proper fractions, ordinary values of both signs
+MulVals == {RI(1), RI(-1), RI(0), <<1, 1000>>, <<-1, 1000>>, <<11, 10>>, <<-9, 10>>, <<1, 2>>, <<-1, 2>>, RI(2), RI(-3)}
+AddVals == {RI(0), RI(1), RI(-1), <<1, 1000>>, <<-1, 2>>, RI(3)}
+JitVals == {RI(0), <<1, 1000>>, <<1, 2>>}
+Special == {RI(0), RI(1), RI(-1), RI(2)}          \* values also spelled as numpy.float64 and as 0-dim tensor
+SpellOK(v, sp) ==
+  CASE sp = SpInt -> v[2] = 1
+    [] sp = SpFloat -> TRUE
+    [] sp = SpBool -> v \in {RI(0), RI(1)}
+    [] sp \in {SpTensor0, SpNumpy} -> v \in Special
+    [] OTHER -> FALSE
+Spelled(V) == {<<v[1], v[2], sp>> : v \in V, sp \in {SpInt, SpFloat, SpTensor0, SpBool, SpNumpy}}
+ScalarParams(V) == {q \in Spelled(V) : SpellOK(<<q[1], q[2]>>, q[3])}
+Val(q) == <<q[1], q[2]>>
+ScalarOps == {"add_scalar", "radd_scalar", "mul", "div", "rmul", "add_jitter"}
+
+\* a case the library may reject (it must then raise; if it returns a distribution, the distribution must be right):
+\* 0-dim tensors, number * X, and the degenerate product 0 * X (covariance 0: not a density)
+Optional(op, q) == op \in ScalarOps /\ (q[3] = SpTensor0 \/ op = "rmul" \/ (op \in {"mul", "rmul"} /\ q[1] = 0))
+\* the result has no density (log_prob is not compared)
+Degenerate(op, q) == op \in {"mul", "rmul"} /\ q[1] = 0
+
 OpParams(op, db) ==
-  CASE op = "add_scalar" -> {RI(3)}
-    [] op = "mul" -> Scalars
-    [] op = "div" -> Scalars
-    [] op = "add_jitter" -> {<<1, 2>>}
+  CASE op = "add_scalar" -> ScalarParams(AddVals)
+    [] op = "radd_scalar" -> ScalarParams(AddVals)
+    [] op = "mul" -> ScalarParams(MulVals)
+    [] op = "div" -> ScalarParams(MulVals \ {RI(0)})            \* X / 0 is no random vector: outside the domain
+    [] op = "rmul" -> {q \in ScalarParams(MulVals) : Val(q) \in Special}
+    [] op = "add_jitter" -> ScalarParams(JitVals) \cup {<<1, 10000, SpOmitted>>}    \* add_jitter() = add_jitter(1e-4)
     [] op = "expand" -> {db, <<2>> \o db, <<3, 1>> \o db, [j \in 1..Len(db) |-> 2]}
     [] op = "unsqueeze" -> (-(Len(db) + 2))..(Len(db) + 1)
     [] op = "add_mvn" -> {<<<<>>, <<>>>>, <<db, db>>, <<<<2>>, <<2>>>>, <<<<1>>, <<2>>>>, <<<<2, 1>>, <<>>>>}
-Ops == {"add_scalar", "mul", "div", "add_jitter", "expand", "unsqueeze", "add_mvn"}
+Ops == ScalarOps \cup {"expand", "unsqueeze", "add_mvn"}
+\* history: was the Cholesky factor of the operand needed before the operation (a dense distribution always has it: Warm(x) = x)
+Warms(lz) == IF lz THEN BOOLEAN ELSE {FALSE}
 
 Run(cs) ==
-  LET x == Construct(cs.mb, cs.cb, cs.lazy, 2)
-      D == Den(x)
-  IN CASE cs.op = "add_scalar" -> [code |-> CodeAddScalar(x, cs.param), sem |-> SemAddScalar(D, cs.param)]
-       [] cs.op = "mul"        -> [code |-> CodeMul(x, cs.param), sem |-> SemMul(D, cs.param)]
-       [] cs.op = "div"        -> [code |-> CodeDiv(x, cs.param), sem |-> SemDiv(D, cs.param)]
-       [] cs.op = "add_jitter" -> [code |-> CodeJitter(x, cs.param), sem |-> SemJitter(D, cs.param)]
+  LET x0 == Construct(cs.mb, cs.cb, cs.lazy, 2)
+      x == IF cs.warm THEN Warm(x0) ELSE x0
+      D == Den(x0)                                             \* the history does not change what the operand IS
+      k == Val(cs.param)
+      sp == cs.param[3]
+  IN CASE cs.op = "add_scalar"  -> [code |-> CodeAddScalar(x, k, sp), sem |-> SemAddScalar(D, k)]
+       [] cs.op = "radd_scalar" -> [code |-> CodeRAddScalar(x, k, sp), sem |-> SemAddScalar(D, k)]
+       [] cs.op = "mul"         -> [code |-> CodeMul(x, k, sp), sem |-> SemMul(D, k)]
+       [] cs.op = "div"         -> [code |-> CodeDiv(x, k, sp), sem |-> SemDiv(D, k)]
+       [] cs.op = "rmul"        -> [code |-> CodeRMul(x, k, sp), sem |-> SemMul(D, k)]
+       [] cs.op = "add_jitter"  -> [code |-> CodeJitter(x, k), sem |-> SemJitter(D, k)]
        [] cs.op = "expand"     -> [code |-> CodeExpand(x, cs.param), sem |-> SemExpand(D, cs.param)]
        [] cs.op = "unsqueeze"  -> [code |-> CodeUnsqueeze(x, cs.param), sem |-> SemUnsqueeze(D, cs.param)]
        [] cs.op = "add_mvn"    -> LET y == Construct(cs.param[1], cs.param[2], cs.lazy, 5)
@@ -188,11 +251,12 @@ Init ==
   \/ /\ Part \in {"ops", "both"}
      /\ \E op \in Ops, p \in Pairs, lz \in Lazies :
           /\ InPart(p, lz)
-          /\ \E q \in OpParams(op, BShape(p[1], p[2])) :
-             LET cs == [kind |-> "op", op |-> op, mb |-> p[1], cb |-> p[2], lazy |-> lz, param |-> q]
-                 s  == Run(cs).sem
-             IN c = [kind |-> "op", op |-> op, mb |-> p[1], cb |-> p[2], lazy |-> lz, param |-> q,
-                     experr |-> s.err, expect |-> s.batch]
+          /\ \E q \in OpParams(op, BShape(p[1], p[2])), w \in Warms(lz) :
+             LET cs == [kind |-> "op", op |-> op, mb |-> p[1], cb |-> p[2], lazy |-> lz, warm |-> w, param |-> q]
+                 \* (a scalar operation is total and keeps the batch shape: no need to run the semantics here; OpsOK re-checks it)
+                 s  == IF op \in ScalarOps THEN [err |-> FALSE, batch |-> BShape(p[1], p[2])] ELSE Run(cs).sem
+             IN c = [kind |-> "op", op |-> op, mb |-> p[1], cb |-> p[2], lazy |-> lz, warm |-> w, param |-> q,
+                     experr |-> s.err, expect |-> s.batch, optional |-> Optional(op, q), degenerate |-> Degenerate(op, q)]
 
 Next == UNCHANGED c
 Spec == Init /\ [][Next]_vars
@@ -203,12 +267,30 @@ LogProbShapeOK ==
   c.kind = "logprob" =>
      (c.expect # NoShape => LogProbFast(c.vb, StoredMB(c.mb, c.cb, c.lazy), StoredCB(c.mb, c.cb, c.lazy)) = c.expect)
 
-\* expansion agrees with its definition (guards the helper every other statement rests on)
+\* expansion agrees with its definition (guards the helper every other statement rests on); constant: checked once, as ASSUME
 BcastDefOK == \A s \in BatchShapes, t \in BatchShapes : CanBcast(s, t) <=> CanBcastDef(s, t)
+ASSUME BcastDefOK
 
-\* every operation acts on (mean, covariance) as the corresponding operation on the random vector
+\* every operation acts on (mean, covariance) as the corresponding operation on the random vector - for every scalar value and
+\* spelling, with or without a cached factor; a case the library may reject raises or is right
 OpsOK ==
   c.kind = "op" =>
-     LET r == Run([kind |-> "op", op |-> c.op, mb |-> c.mb, cb |-> c.cb, lazy |-> c.lazy, param |-> c.param])
-     IN DEq(Den(r.code), r.sem)
+     LET r == Run([kind |-> "op", op |-> c.op, mb |-> c.mb, cb |-> c.cb, lazy |-> c.lazy, warm |-> c.warm, param |-> c.param])
+         dc == Den(r.code)
+     IN /\ r.sem.err = c.experr /\ (~r.sem.err => r.sem.batch = c.expect)          \* the expectation handed to the replay is the semantics'
+        /\ IF c.optional /\ dc.err THEN TRUE ELSE DEq(dc, r.sem)
+
+\* needing the Cholesky factor does not change the distribution (every configuration; constant: checked once, as ASSUME)
+WarmNeutral ==
+  \A p \in Pairs, lz \in Lazies : InPart(p, lz) => LET x == Construct(p[1], p[2], lz, 2) IN DEq(Den(Warm(x)), Den(x))
+ASSUME WarmNeutral
+
+\* the alphabet contains what it is meant to contain (guards against an edit that drops the special values again)
+AlphabetOK ==
+  /\ \A v \in {RI(1), RI(-1), RI(0)} : \A op \in {"mul"} : \A sp \in {SpInt, SpFloat, SpNumpy, SpTensor0} : <<v[1], v[2], sp>> \in OpParams(op, <<>>)
+  /\ \A v \in {RI(1), RI(-1)} : \A sp \in {SpInt, SpFloat, SpNumpy, SpTensor0} : <<v[1], v[2], sp>> \in OpParams("div", <<>>)
+  /\ \A op \in {"add_scalar", "radd_scalar"} : \A sp \in {SpInt, SpFloat, SpNumpy, SpTensor0} : <<0, 1, sp>> \in OpParams(op, <<>>)
+  /\ {<<0, 1, SpInt>>, <<0, 1, SpFloat>>} \subseteq OpParams("add_jitter", <<>>)
+  /\ \E q \in OpParams("mul", <<>>) : q[1] # 0 /\ 1000 * (IF q[1] < 0 THEN -q[1] ELSE q[1]) <= q[2]        \* 0-adjacent
+ASSUME AlphabetOK
 =============================================================================
